@@ -47,8 +47,8 @@ def sh(cmd, cwd=None, timeout=1800, env=None):
 class Failure:
     """One thing that no longer checks.  kind: translator | coq | correspondence | oracle."""
 
-    def __init__(self, kind, key, what, replay=None, has_input=False):
-        self.kind, self.key, self.what, self.replay, self.has_input = kind, key, what, replay, has_input
+    def __init__(self, kind, key, what, replay=None, has_input=False, seed=None):
+        self.kind, self.key, self.what, self.replay, self.has_input, self.seed = kind, key, what, replay, has_input, seed
 
     def to_json(self):
         return {"kind": self.kind, "key": self.key, "what": self.what, "has_failing_input": self.has_input, "replay": self.replay}
@@ -87,7 +87,7 @@ class Ctx:
             self.samples.append(descr)
 
     def fail(self, kind, key, what, replay=None, has_input=False):
-        self.failures.append(Failure(kind, key, what, replay, has_input))
+        self.failures.append(Failure(kind, key, what, replay, has_input, seed=self.seed))
 
     @property
     def quick(self):
@@ -322,14 +322,14 @@ def finish(ctx: Ctx, level="proof", extra_cov=None, assumptions=None):
             h = hashlib.sha1((f.key + f.what).encode()).hexdigest()[:12]
             path = os.path.join(VERIF, "replays", ctx.pid, h + ".json")
             with open(path, "w") as fh:
-                json.dump({"property": ctx.pid, "seed": ctx.seed, "tier": ctx.tier, **f.to_json(),
+                json.dump({"property": ctx.pid, "seed": f.seed if f.seed is not None else ctx.seed, "tier": ctx.tier, **f.to_json(),
                            "also_broken": [w.to_json() for w in without][:10]}, fh, indent=1, default=str)
             lines.append(f"VIOLATION property={ctx.pid} replay={path}")
         if not with_input:
             h = hashlib.sha1("".join(f.key for f in without).encode()).hexdigest()[:12]
             path = os.path.join(VERIF, "replays", ctx.pid, h + ".json")
             with open(path, "w") as fh:
-                json.dump({"property": ctx.pid, "seed": ctx.seed, "tier": ctx.tier,
+                json.dump({"property": ctx.pid, "seed": ctx.seed0 if hasattr(ctx, "seed0") else ctx.seed, "tier": ctx.tier,
                            "no_longer_checks": [w.to_json() for w in without][:20],
                            "note": "no failing input was found by the search; the named theorem / translator unit / correspondence no longer checks"},
                           fh, indent=1, default=str)
@@ -365,7 +365,7 @@ def finish(ctx: Ctx, level="proof", extra_cov=None, assumptions=None):
     ev = {
         "property_id": ctx.pid,
         "tier": ctx.tier,
-        "seed": int(ctx.seed),
+        "seed": int(getattr(ctx, "seed0", ctx.seed)),
         "level": level,
         "coverage": cov,
         "assumptions": (assumptions or []) + ctx.assumptions,
